@@ -88,6 +88,8 @@ pub struct Ctx {
     frozen: bool,
     /// inconclusive events (harness trouble): reported with exit 2
     pub inconclusive: Vec<String>,
+    /// shared-memory record of the case being executed (crash isolation, see main.rs)
+    inflight: Option<Inflight>,
 }
 
 pub fn hash_of<K: Hash>(k: &K) -> u64 {
@@ -132,6 +134,7 @@ impl Ctx {
             replay_ran: false,
             frozen: false,
             inconclusive: Vec::new(),
+            inflight: Inflight::from_env(),
         }
     }
 
@@ -207,6 +210,14 @@ impl Ctx {
         }
     }
 
+    fn mark_inflight<C: Serialize>(&mut self, check: &str, case: &C) {
+        if let Some(inf) = self.inflight.as_mut() {
+            let body = json!({"property": self.prop, "check": check, "what": "process crashed (signal) while executing this case",
+                              "case": serde_json::to_value(case).unwrap_or(Value::Null), "evaluations": self.evaluations});
+            inf.store(&serde_json::to_vec(&body).unwrap_or_default());
+        }
+    }
+
     pub fn note_inconclusive(&mut self, what: String) {
         eprintln!("INCONCLUSIVE: {}", what);
         self.inconclusive.push(what);
@@ -277,6 +288,7 @@ impl Ctx {
                 }
             };
             self.eval();
+            self.mark_inflight(name, &case);
             if let Err(what) = f(self, &case) {
                 self.violation(name, what, &case);
             }
@@ -301,6 +313,7 @@ impl Ctx {
             if !*failed.borrow() {
                 ctx.eval();
             }
+            ctx.mark_inflight(name, &v);
             match f(ctx, &v) {
                 Ok(()) => Ok(()),
                 Err(what) => {
@@ -366,6 +379,7 @@ impl Ctx {
                 continue;
             }
             self.eval();
+            self.mark_inflight(name, &case);
             if let Err(what) = f(self, &case) {
                 self.violation(name, what, &case);
                 reported += 1;
@@ -625,4 +639,51 @@ pub fn lat16() -> impl Strategy<Value = u16> {
         3 => (0..LATTICE64.len()).prop_map(|i| LATTICE64[i] as u16),
         2 => any::<u16>(),
     ]
+}
+
+/// Shared-memory slot holding the case currently being executed, so that the supervising parent
+/// process can turn a crash (SIGSEGV, abort) of the library into a replayable violation.
+pub struct Inflight {
+    ptr: *mut u8,
+    len: usize,
+}
+unsafe impl Send for Inflight {}
+
+pub const INFLIGHT_SIZE: usize = 1 << 20;
+
+impl Inflight {
+    pub fn from_env() -> Option<Inflight> {
+        let path = std::env::var("VVERIF_INFLIGHT").ok()?;
+        let f = std::fs::OpenOptions::new().read(true).write(true).create(true).open(&path).ok()?;
+        f.set_len(INFLIGHT_SIZE as u64).ok()?;
+        use std::os::unix::io::AsRawFd;
+        let p = unsafe {
+            libc::mmap(std::ptr::null_mut(), INFLIGHT_SIZE, libc::PROT_READ | libc::PROT_WRITE, libc::MAP_SHARED, f.as_raw_fd(), 0)
+        };
+        if p == libc::MAP_FAILED {
+            return None;
+        }
+        Some(Inflight { ptr: p as *mut u8, len: INFLIGHT_SIZE })
+    }
+    pub fn store(&mut self, bytes: &[u8]) {
+        let n = bytes.len().min(self.len - 8);
+        unsafe {
+            std::ptr::copy_nonoverlapping(bytes.as_ptr(), self.ptr.add(8), n);
+            std::ptr::write_volatile(self.ptr as *mut u64, n as u64);
+        }
+    }
+    /// read back a record from the file (parent side)
+    pub fn read_file(path: &str) -> Option<Vec<u8>> {
+        let b = std::fs::read(path).ok()?;
+        if b.len() < 8 {
+            return None;
+        }
+        let mut a = [0u8; 8];
+        a.copy_from_slice(&b[..8]);
+        let n = u64::from_ne_bytes(a) as usize;
+        if n == 0 || 8 + n > b.len() {
+            return None;
+        }
+        Some(b[8..8 + n].to_vec())
+    }
 }
